@@ -65,7 +65,7 @@ def run(ck: Check) -> int:
     chunks = K.enumerate_cases(ck.tier, ck.seed)
     ck.bound('chunks', len(chunks))
     ck.bound('elementary_cases', sum(len(c) for c in chunks))
-    ck.bound('keys_per_curve', '4 (BLS 2) quick / 8 (BLS 4) thorough')
+    ck.bound('keys_per_curve', '4 (BLS 2) quick / 8 (BLS 3) thorough')
     results = CC.pmap(K.eval_chunk, chunks)
     seen_viol = {}
     for chunk_res in results:
@@ -87,7 +87,7 @@ def run(ck: Check) -> int:
     ck.note('Not demanded (remark): Key.verify with a malformed P-256 public point (SEC1 tag not 02/03) raises '
             'fastecdsa InvalidSEC1PublicKey, which is not a ValueError, so CHECK_SIGNATURE would propagate it; Octez '
             'rejects such a `key` literal at parse time, the property quantifies over keys.')
-    return ck.finish('other',
+    return ck.finish('exploration',
                      'R (bounded, real functions): sign safety / prefix / verify / independent acceptance, rejection of '
                      'enumerated alterations, CHECK_SIGNATURE agreement. Cryptographic strength of the primitives is an '
                      'assumed contract (see assumptions); no P obligations are claimed here.')
